@@ -790,6 +790,14 @@ F_C11_step(cfg, pre, post) ==
                 => CuOf(post, s.i).left = CuOf(pre, s.i).se - post.now
                    /\ CuOf(post, s.i).ost = CuOf(pre, s.i).st
                    /\ CuOf(post, s.i).stm = cfg.nodes[s.n].pp)
+       \cup Chk("C11.obligation-kept-while-waiting", \A j \in DOMAIN pre.cu :
+             \* what a victim is owed (option marker, remaining time, original time) does not change while it waits
+             LET p == pre.cu[j]
+             IN p.stm # 0 /\ p.srv = 0 /\ p.loc \in 1..cfg.N /\ cfg.nodes[p.loc].pp # 0 /\ cfg.nodes[p.loc].kind = "std"
+                /\ IsLive(post, p.id) /\ CuOf(post, p.id).loc = p.loc /\ CuOf(post, p.id).arr = p.arr
+                /\ ~(\E b \in DOMAIN post.steps : post.steps[b].i = p.id
+                                                   /\ post.steps[b].k \in {"start", "preempt", "interrupt", "release", "renege"})
+                => LET q == CuOf(post, p.id) IN q.stm = p.stm /\ q.left = p.left /\ q.ost = p.ost)
        \cup Chk("C11.service-after-preemption", \A a \in IdxOf(post, "start") :
              LET s == post.steps[a]
                  drew == \E b \in IdxOf(post, "svc") : post.steps[b].i = s.i
